@@ -2,8 +2,8 @@
 """Copies verified seeded changes from /tmp/seed/out/<P>/<m>/ to /verif/seeded/<P>-<m>/ with meta.json."""
 import json, os, shutil, sys, glob
 caught = json.load(open('/verif/seeded/caught.json')) if os.path.exists('/verif/seeded/caught.json') else {}
-# round 1 lives in /tmp/seed/out (ids <P>-m<k>), round 2 in /tmp/seed2/out (ids <P>-n<k>)
-for d in sorted(glob.glob('/tmp/seed/out/C*/m*')) + sorted(glob.glob('/tmp/seed2/out/C*/m*')):
+# round 1 lives in /tmp/seed/out (ids <P>-m<k>), round 2 in /tmp/seed2/out (ids <P>-n<k>), round 3 in /tmp/seed3/out (<P>-p<k>)
+for d in sorted(glob.glob('/tmp/seed/out/C*/m*')) + sorted(glob.glob('/tmp/seed2/out/C*/m*')) + sorted(glob.glob('/tmp/seed3/out/C*/m*')):
     v = os.path.join(d, 'verified.txt')
     if not os.path.exists(v):
         continue
@@ -12,7 +12,7 @@ for d in sorted(glob.glob('/tmp/seed/out/C*/m*')) + sorted(glob.glob('/tmp/seed2
         print('NOT VERIFIED', d, line)
         continue
     prop = d.split('/')[-2]; m = d.split('/')[-1]
-    sid = f'{prop}-{m}' if '/tmp/seed/' in d else f'{prop}-n{m[1:]}'
+    sid = f'{prop}-{m}' if '/tmp/seed/' in d else (f'{prop}-n{m[1:]}' if '/tmp/seed2/' in d else f'{prop}-p{m[1:]}')
     dst = f'/verif/seeded/{sid}'
     os.makedirs(dst, exist_ok=True)
     shutil.copy(os.path.join(d, 'patch.diff'), dst)
